@@ -1,13 +1,168 @@
 import Vflow.Model.Mirror
+import Vflow.Proofs.Mirror
 /-!
 # C16 — mirrored datagrams reach the third-party collector unchanged
+
+`assembleFrom sport max src dst port payload` is one iteration of `mirrorIPFIX` (`sport` = 55117) /
+`mirrorSFlow` (55118) for an IPv4 target, as the code is after the `fix:` commit for F13.
+The theorems quantify over every payload, every maximum, every IPv4 source in 4-octet or IPv4-mapped
+16-octet form, every IPv4 target (either form) and every port.
+
+Bound stated: the IPv4 total-length field has 16 bits, so `28 + length ≤ 65535` is required (beyond it
+`SetLen` wraps around, see `total_length_wraps`); it holds whenever `max ≤ 65507`, the largest UDP payload.
+Checksums: the code leaves the IPv4 header checksum 0 (the kernel fills it in on a raw socket) and the UDP
+checksum 0 (= none, legal over IPv4); the model has them as they are and nothing is claimed about them.
 -/
 namespace Vflow.C16
 open Vflow Vflow.Mirror
 
-/-- non-vacuity: a concrete datagram is assembled and parses back -/
-example : (assemble 64 [192, 168, 1, 1] (List.replicate 10 0 ++ [0xff, 0xff, 127, 0, 0, 1]) 4172 [1, 2, 3]).bind
-    (fun p => .ok (parse4 p)) =
-    .ok (some ⟨[192, 168, 1, 1], [127, 0, 0, 1], 55117, 4172, 31, 11, [1, 2, 3]⟩) := by decide
+/-- the 16-octet IPv4-mapped form `::ffff:a.b.c.d` of a 4-octet address (what `net.ParseIP` and a
+dual-stack socket deliver) -/
+def mapped (a : Bytes) : Bytes := List.replicate 10 0 ++ [0xff, 0xff] ++ a
+
+/-- `ip` is the IPv4 address `a` in 4-octet or in 16-octet form -/
+def IsV4 (ip a : Bytes) : Prop := a.length = 4 ∧ (ip = a ∨ ip = mapped a)
+
+theorem to4_isV4 {ip a : Bytes} (h : IsV4 ip a) : to4 ip = some a := by
+  obtain ⟨h4, h | h⟩ := h
+  · subst h; simp [to4, h4]
+  · obtain ⟨a, b, c, d, rfl⟩ := len4 a h4
+    subst h
+    simp [to4, mapped]
+
+
+/-- **C16 (layout)**: the octets handed to `Send` are exactly the RFC 791 / RFC 768 datagram with the
+exporter as source, the configured target and port, total length `28 + n`, UDP length `8 + n` and the
+payload unchanged -/
+theorem assembleFrom_eq (sport : Nat) (max : Int) (src dst src4 dst4 : Bytes) (port : Nat) (payload : Bytes)
+    (hs : IsV4 src src4) (hd : IsV4 dst dst4) (hmax : (payload.length : Int) ≤ max)
+    (hlen : 28 + payload.length ≤ 65535) (hsp : sport < 65536) (hp : port < 65536) :
+    assembleFrom sport max src dst port payload = .ok (ipv4udp src4 dst4 sport port payload) := by
+  have hs4 := to4_isV4 hs
+  have hd4 := to4_isV4 hd
+  obtain ⟨s0, s1, s2, s3, rfl⟩ := len4 src4 hs.1
+  obtain ⟨d0, d1, d2, d3, rfl⟩ := len4 dst4 hd.1
+  have hmax0 : 0 ≤ max := by omega
+  obtain ⟨m, rfl⟩ := Int.eq_ofNat_of_zero_le hmax0
+  have hm : payload.length ≤ m := by omega
+  unfold assembleFrom
+  have hmk : makeBytes ((bufExtra : Nat) + (m : Int)) = .ok (List.replicate (48 + m) 0) := by
+    simp only [makeBytes, bufExtra, ipv6HLen, udpHLen]
+    have : ¬ ((((40 + 8 : Nat) : Int)) + (m : Int) < 0) := by omega
+    simp only [this, ↓reduceIte]
+    congr 2
+  simp only [hmk, ok_bind, udpMarshal_val, hd4, Option.isNone_some, Bool.false_eq_true, ↓reduceIte,
+    ipv4Tpl_val, udpProto, setAddrs_val s0 s1 s2 s3 d0 d1 d2 d3 src dst hs4 hd4]
+  have hT : (ipv4HLen + (payload.length + udpHLen) % 65536) % 65536 = 28 + payload.length := by
+    simp only [ipv4HLen, udpHLen]; omega
+  have hU : (udpHLen + payload.length) % 65536 = 8 + payload.length := by
+    simp only [udpHLen]; omega
+  have hsl : setLen4 [69, 0, 0, 0, 0, 0, 0, 0, 64, 17, 0, 0, s0, s1, s2, s3, d0, d1, d2, d3] (payload.length + udpHLen)
+      = .ok ([69, 0] ++ encBE 2 (28 + payload.length) ++ [0, 0, 0, 0, 64, 17, 0, 0, s0, s1, s2, s3, d0, d1, d2, d3]) := by
+    simp [setLen4, putU16, hT]
+  have hul : udpSetLen (encBE 2 (sport % 65536) ++ encBE 2 (port % 65536) ++ [0, 8, 0, 0]) payload.length
+      = .ok (encBE 2 sport ++ encBE 2 port ++ encBE 2 (8 + payload.length) ++ [0, 0]) := by
+    simp [udpSetLen, putU16, hU, encBE_two, Nat.mod_eq_of_lt hsp, Nat.mod_eq_of_lt hp]
+  simp only [hsl, hul, ok_bind]
+  generalize hH : ([69, 0] ++ encBE 2 (28 + payload.length) ++
+      [0, 0, 0, 0, 64, 17, 0, 0, s0, s1, s2, s3, d0, d1, d2, d3] : Bytes) = H
+  generalize hUh : (encBE 2 sport ++ encBE 2 port ++ encBE 2 (8 + payload.length) ++ [0, 0] : Bytes) = U
+  have hHl : H.length = 20 := by subst hH; simp [encBE_two]
+  have hUl : U.length = 8 := by subst hUh; simp [encBE_two]
+  have c1 : copyInto (List.replicate (48 + m) 0) 0 ipv4HLen H = .ok (H ++ List.replicate (28 + m) 0) := by
+    have := copyInto_at [] (List.replicate (48 + m) 0) H 0 20 rfl (by omega) (by simp; omega)
+    simp only [List.nil_append, Nat.sub_zero] at this
+    rw [ipv4HLen, this, List.take_of_length_le (by omega), hHl, List.drop_replicate]
+    congr 3; omega
+  have c2 : copyInto (H ++ List.replicate (28 + m) 0) ipv4HLen (ipv4HLen + 8) U
+      = .ok ((H ++ U) ++ List.replicate (20 + m) 0) := by
+    have := copyInto_at H (List.replicate (28 + m) 0) U 20 28 hHl (by omega) (by simp; omega)
+    rw [ipv4HLen, this, List.take_of_length_le (by omega), hUl, List.drop_replicate]
+    congr 3; omega
+  have c3 : copyInto ((H ++ U) ++ List.replicate (20 + m) 0) (ipv4HLen + 8)
+      ((H ++ U) ++ List.replicate (20 + m) 0).length payload
+      = .ok (((H ++ U) ++ payload) ++ List.replicate (20 + m - payload.length) 0) := by
+    have hl : ((H ++ U) ++ List.replicate (20 + m) 0).length = 48 + m := by simp [hHl, hUl]; omega
+    have := copyInto_at (H ++ U) (List.replicate (20 + m) 0) payload 28 (48 + m) (by simp [hHl, hUl]) (by omega) (by simp; omega)
+    rw [hl, ipv4HLen, this, List.take_of_length_le (by omega), List.drop_replicate]
+  rw [c1]; simp only [ok_bind]
+  rw [c2]; simp only [ok_bind]
+  rw [c3]; simp only [ok_bind]
+  have hb : ¬ ((m : Int) < 0 ∨ bodyCap (m : Int) payload.length < (m : Int)) := by
+    unfold bodyCap
+    split <;> omega
+  simp only [hb, ↓reduceIte]
+  unfold slice
+  have hsl2 : 0 ≤ ipv4HLen + 8 + payload.length ∧ ipv4HLen + 8 + payload.length ≤
+      (((H ++ U) ++ payload) ++ List.replicate (20 + m - payload.length) 0).length := by
+    simp [hHl, hUl, ipv4HLen]; omega
+  simp only [hsl2, and_self, ↓reduceIte, List.drop_zero, Nat.sub_zero]
+  have htk : ipv4HLen + 8 + payload.length = ((H ++ U) ++ payload).length := by simp [hHl, hUl, ipv4HLen]; omega
+  rw [htk, List.take_left']
+  · subst hH; subst hUh
+    simp [ipv4udp, encBE_two]
+  · rfl
+
+
+/-- the receiver's view of a well-formed datagram -/
+theorem parse4_ipv4udp (src4 dst4 : Bytes) (sport dport : Nat) (payload : Bytes)
+    (hs : src4.length = 4) (hd : dst4.length = 4) (hlen : 28 + payload.length ≤ 65535)
+    (hsp : sport < 65536) (hdp : dport < 65536) :
+    parse4 (ipv4udp src4 dst4 sport dport payload) =
+      some ⟨src4, dst4, sport, dport, 28 + payload.length, 8 + payload.length, payload⟩ := by
+  obtain ⟨s0, s1, s2, s3, rfl⟩ := len4 src4 hs
+  obtain ⟨d0, d1, d2, d3, rfl⟩ := len4 dst4 hd
+  have e1 := be2 (28 + payload.length) (by omega)
+  have e2 := be2 (8 + payload.length) (by omega)
+  have e3 := be2 sport hsp
+  have e4 := be2 dport hdp
+  simp only [encBE_two] at e1 e2 e3 e4
+  simp [parse4, ipv4udp, encBE_two, e1, e2, e3, e4]
+  exact ⟨by omega, by omega⟩
+
+/-- **C16 (never panics)**: no slice expression, `make` or index of the mirror path fails -/
+theorem assemble_no_panic (sport : Nat) (max : Int) (src dst src4 dst4 : Bytes) (port : Nat) (payload : Bytes)
+    (hs : IsV4 src src4) (hd : IsV4 dst dst4) (hmax : (payload.length : Int) ≤ max)
+    (hlen : 28 + payload.length ≤ 65535) (hsp : sport < 65536) (hp : port < 65536) :
+    ∀ w, assembleFrom sport max src dst port payload ≠ .panic w := by
+  intro w; rw [assembleFrom_eq sport max src dst src4 dst4 port payload hs hd hmax hlen hsp hp]; simp
+
+/-- what a receiver parses out of a `Res Bytes` -/
+def parsed (r : Res Bytes) : Option Pkt4 :=
+  match r with
+  | .ok b => parse4 b
+  | _ => none
+
+/-- **C16 (IPFIX)**: `parse4 (assemble …) = ⟨src4, dst4, 55117, port, 28 + len, 8 + len, payload⟩` -/
+theorem mirror_ipfix (max : Int) (src dst src4 dst4 : Bytes) (port : Nat) (payload : Bytes)
+    (hs : IsV4 src src4) (hd : IsV4 dst dst4) (hmax : (payload.length : Int) ≤ max)
+    (hlen : 28 + payload.length ≤ 65535) (hp : port < 65536) :
+    parsed (assemble max src dst port payload) =
+      some ⟨src4, dst4, 55117, port, 28 + payload.length, 8 + payload.length, payload⟩ := by
+  unfold assemble
+  rw [assembleFrom_eq ipfixSrcPort max src dst src4 dst4 port payload hs hd hmax hlen (by decide) hp]
+  exact parse4_ipv4udp src4 dst4 _ port payload hs.1 hd.1 hlen (by decide) hp
+
+/-- **C16 (sFlow)**: the same for `mirrorSFlow` (source port 55118) -/
+theorem mirror_sflow (max : Int) (src dst src4 dst4 : Bytes) (port : Nat) (payload : Bytes)
+    (hs : IsV4 src src4) (hd : IsV4 dst dst4) (hmax : (payload.length : Int) ≤ max)
+    (hlen : 28 + payload.length ≤ 65535) (hp : port < 65536) :
+    parsed (assembleSFlow max src dst port payload) =
+      some ⟨src4, dst4, 55118, port, 28 + payload.length, 8 + payload.length, payload⟩ := by
+  unfold assembleSFlow
+  rw [assembleFrom_eq sflowSrcPort max src dst src4 dst4 port payload hs hd hmax hlen (by decide) hp]
+  exact parse4_ipv4udp src4 dst4 _ port payload hs.1 hd.1 hlen (by decide) hp
+
+/-- non-vacuity: hypotheses are satisfiable and the statement computes on a concrete datagram
+(4-octet source, 16-octet target, payload of exactly `max` octets) -/
+example : IsV4 [192, 168, 1, 1] [192, 168, 1, 1] ∧ IsV4 (mapped [127, 0, 0, 1]) [127, 0, 0, 1] ∧
+    parsed (assemble 3 [192, 168, 1, 1] (mapped [127, 0, 0, 1]) 4172 [1, 2, 3]) =
+      some ⟨[192, 168, 1, 1], [127, 0, 0, 1], 55117, 4172, 31, 11, [1, 2, 3]⟩ := by
+  refine ⟨⟨rfl, .inl rfl⟩, ⟨rfl, .inr rfl⟩, by decide⟩
+
+/-- why the bound `28 + length ≤ 65535` is stated: `SetLen` adds in 16 bits, a payload of 65508 octets
+would get total length 0 -/
+theorem total_length_wraps :
+    setLen4 (List.replicate 20 0) (65508 + 8) = .ok (List.replicate 20 0) := by decide
 
 end Vflow.C16
